@@ -16,11 +16,11 @@ from core import *
 
 NEEDS = ["Lang", "LangProofs", "Corr"]
 
-# repairs proposed by this module that are not yet in /repo: the check expects the loud failure until a repair is listed here
+# repairs proposed by this module: the check expects the loud failure until a repair is listed in LANDED
 # (or in VERIF_C05_FIXED=D151,D152,... for the validation of a patched tree), afterwards the value.
 #   D151 functions on literal-only arguments   D152 round(...)   D153 index_range with an integer-variable bound
 #   D154 the derivative notation dx/dt = ... on Python < 3.13
-LANDED = set()
+LANDED = {"D151", "D152", "D153", "D154"}          # in /repo since round 7 (8157ae4, 3e83e92, 0178e8e, 4854db7)
 FIXED = LANDED | {x for x in os.environ.get("VERIF_C05_FIXED", "").split(",") if x}
 
 # ====================================================================================================== impl side (worker)
